@@ -246,11 +246,19 @@ def pipeline_cases(ctx, tab):
     # one full-resolution pass of several thousand lines (a 15-minute HRPT pass has ~5400, a FRAC orbit ~36000): only in the
     # thorough tier and when the source differs from the validated baseline (90 MB file, ~3 GB of memory, ~40 s)
     big = [("klmLac", 5600)] if (ctx.thorough or getattr(ctx, "escalated", False)) else []
-    for k in range(-len(big), ctx.n(6, 200)):
+    nbase = ctx.n(6, 200)
+    sweep = [("podGac", j) for j in range(len(filegen.PLATFORMS["pod"]))] + [("klmGac", j) for j in range(len(filegen.PLATFORMS["klm"]))]
+    for k in range(-len(big), nbase + len(sweep)):
         fmt = rng.choice(["klmGac", "podGac", "klmLac", "podLac"])
         n = 8 if fmt.endswith("Lac") else 20
         if k < 0:
             fmt, n = big[k]
+        plat = None
+        if k >= nbase:
+            # PLATFORM SWEEP: a file of every spacecraft of either family (header id, platform code, name and a date of its life
+            # from the user's guides: filegen.PLATFORMS) follows THAT spacecraft's coefficients
+            fmt, plat = sweep[k - nbase]
+            n = 6
         if fmt.startswith("klm"):
             year, sat = 2002 + rng.randint(0, 3), "noaa16"
         else:
@@ -269,8 +277,15 @@ def pipeline_cases(ctx, tab):
             # for every line of the pass (not 31 December of a leap year: 2004 + 366/365 = 2005 + 1/365)
             year, doy = (2003, rng.randint(2, 300)) if fmt.startswith("klm") else (2000, rng.randint(2, 300))
             start = ydm_to_ms(year, doy, 86400000 - 170000)
+        if plat is not None:
+            sid, pcode, sat, (year, doy) = filegen.PLATFORMS[filegen.FMT[fmt]["family"]][plat]
+            start = ydm_to_ms(year, doy, rng.randint(0, 86000000 - 20000))
         tp = timesgen.TimePass(fmt, list(range(1, n + 1)), start)
-        b = tp.build(ctx, rng)
+        if plat is not None:
+            b = tp.build(ctx, rng, **({"pod_epoch": filegen.pod_epoch_of(year, doy)} if fmt.startswith("pod") else {}))
+            b.sat_id, b.plat = sid, pcode
+        else:
+            b = tp.build(ctx, rng)
         if fmt.startswith("klm"):
             b.bitfield[:] = np.array([rng.choice([0, 1, 1]) for _ in range(n)], dtype=np.uint16)
         data = b.tobytes()
@@ -289,7 +304,7 @@ def pipeline_cases(ctx, tab):
         t0 = int(np.asarray(r.get_times()[0]).astype("datetime64[ms]").astype(np.int64))
         y, d, _ = filegen.ms_to_ydm(t0)
         corr = Fraction(repr(1.0 - 0.0334 * math.cos(2.0 * math.pi * (d - 2) / 365.25)))
-        payload = {"fmt": fmt, "start": start, "n": n, "sat": sat, "stream": "pipeline"}
+        payload = {"fmt": fmt, "start": start, "n": n, "sat": sat, "stream": "pipeline", "platform": plat}
         nsol = 3 if fmt.startswith("klm") else 2
         check_lines = range(n) if n <= 64 else sorted(set([0, 1, n // 2, 1023, 1024, 2047, 2048, 4095, 4096, 5460, 5461, 5462, 8191, 8192, n - 2, n - 1] +
                                                          rng.sample(range(n), 12)) & set(range(n)))
@@ -307,7 +322,7 @@ def pipeline_cases(ctx, tab):
                                                                                            None if w is None else float(w)),
                                       payload, cls="pipeline")
                         break
-        ctx.case((fmt, start), nontrivial=True, branch="pipeline/" + fmt)
+        ctx.case((fmt, start, plat), nontrivial=True, branch=("pipeline/" + fmt) if plat is None else "pipeline/platform-sweep")
 
 
 def run(ctx):
